@@ -131,8 +131,24 @@ def need(text, pattern, what):
 
 
 def byte_order_calls(F):
+    """Byte-order conversions in the functions the file format passes through: everything reachable, along resolved calls, from a
+    Serialize / MemoryMapped method or a function of serialize.rs.  (A bit-manipulation primitive that happens to be spelled with
+    to_le_bytes -- a bit reversal byte by byte -- is not on that path and not a statement about the file.)"""
     out = []
+    calls = {}
     for b in F.all_bodies():
+        calls[b.name] = set(callee_name(t) for _, t in b.calls())
+    roots = [n for n in calls if "serialize::Serialize>::" in n or "serialize::MemoryMapped" in n or n.startswith("serialize::") or "Writer" in n]
+    seen, st = set(), list(roots)
+    while st:
+        x = st.pop()
+        if x in seen:
+            continue
+        seen.add(x)
+        st.extend(y for y in calls.get(x, ()) if y in calls)
+    for b in F.all_bodies():
+        if b.name not in seen:
+            continue
         for _, t in b.calls():
             nme = callee_name(t).split("::")[-1]
             if nme in ("to_be", "to_le", "from_be", "from_le", "swap_bytes", "to_be_bytes", "to_le_bytes", "from_be_bytes", "from_le_bytes", "to_ne_bytes", "from_ne_bytes"):
